@@ -74,6 +74,8 @@ import Tie.MetaTable
 #print axioms Sourcer.C05_shadowing_breaks_it
 #print axioms Sourcer.C06_call_is_body_with_arguments
 #print axioms Sourcer.C06_arguments_bind_parameters
+#print axioms Sourcer.C06_call_means_its_expansion_closed_arguments
+#print axioms Sourcer.C06_more_fuel_same_outcome
 #print axioms Tie.implFlags_sound -- module Tie.Flags
 #print axioms Tie.impl_refines -- module Tie.Flags
 #print axioms Tie.map_index_eq -- module Tie.Excerpt
